@@ -40,7 +40,7 @@ FUNCS = ["lead_exponent", "lead_coefficient", "isconstant", "tonumpy", "decompos
 def case_st(draw, only=None):
     fn = only or draw(st.sampled_from(FUNCS))
     names = draw(gen.names_st(max_size=3))
-    shape = draw(st.sampled_from([(), (2,), (3,), (4,), (2, 2), (2, 3), (1, 3), (5,)]))
+    shape = draw(st.sampled_from([(), (), (2,), (3,), (4,), (2, 2), (2, 3), (1, 3), (5,)]))
     if fn in ("sortable_proxy", "argext") and shape == ():
         shape = (4,)
     kind = draw(st.sampled_from(["i", "i", "f"]))
@@ -52,6 +52,12 @@ def case_st(draw, only=None):
             for i in range(size):
                 if draw(st.integers(0, 3)) == 0:
                     t[1][i] = 0
+    if fn in ("lead_exponent", "lead_coefficient") and desc["terms"] and draw(st.integers(0, 2)) == 0:
+        # stored all-zero terms above the true leading term (as alignment / derivatives leave them)
+        desc["retain"] = True
+        k = draw(st.integers(0, len(desc["terms"]) - 1))
+        top = max(range(len(desc["terms"])), key=lambda i: (sum(desc["terms"][i][0]), desc["terms"][i][0]))
+        desc["terms"][top][1] = [0] * size
     if fn == "tonumpy" and draw(st.booleans()):
         desc["terms"] = [t for t in desc["terms"] if not any(t[0])][:1]
     if fn == "isconstant" and draw(st.integers(0, 2)) == 0:
@@ -66,10 +72,13 @@ def strategy(tier):
 
 
 def STRATA(tier):
-    return FUNCS + ["sortable_proxy", "argext", "set_dimensions"]
+    return FUNCS + ["sortable_proxy", "set_dimensions", "lead_exponent", "lead_coefficient",
+                    "argext:argmax", "argext:argmin", "argext:amax", "argext:amin"]
 
 
 def strategy_for(tier, name):
+    if name.startswith("argext:"):
+        return case_st(only="argext").map(lambda c, w=name.split(":")[1]: dict(c, which=w))
     return case_st(only=name)
 
 
